@@ -153,6 +153,7 @@ def built_cases(quick):
         ({-1: 3, 0: 1}, b'', [2], 'S1', 0),                # target = extension block, its BTSD also in the AAD
         ({0: 1, -1: 1, 2: 3}, cbor2.dumps({3: 50}), [1], 'S1', 0),   # another block's metadata + BTSD in scope
         ({0: 1, -1: 1, 4: 1}, b'', [1, 2], 'S1', 0),       # two targets, block 4 metadata in scope
+        ({0: 1, -1: 1, 2: 2, 4: 3}, b'', [1], 'S1', 0),    # block 2 data only, block 4 metadata AND data (flags 1, 2, 3 on other blocks)
     ]
     return out if not quick else out
 
@@ -187,6 +188,89 @@ def multi_bib_wires(all_specs):
     return wires
 
 
+ORDER_SPEC = dict(dest='dtn://dst/svc', payload=PAYLOAD, crc=2,
+                  blocks=[dict(type=7, num=2, crc=1, data=cbor2.dumps(5)), dict(type=10, num=3, crc=2, data=cbor2.dumps([30, 2]))])
+ORDER_NUM = {1: 1, 7: 2, 10: 3}       # block type -> block number in ORDER_SPEC
+
+
+def order_source_wire(order):
+    ''' the bundle a source agent configured with one integrity association per block type in ``order`` (or the
+    two-template association when order == 'two-templates') transmits for ORDER_SPEC - built by the code under test '''
+    import re as _re
+    node = sd.SecNode(sd.SRC_ID)
+    if order == 'two-templates':
+        mod = node.mod
+        sops = []
+        for name in ('mac0-hmac256', 'mac0-hmac384'):
+            key = node.add_sym_key(sd.profile_key(sd.PROFILES[name]))
+            sops.append(mod.SecOperation(sec_type='bib', role='source', priv_key_id=key.kid))
+        node.ctx.sec_assoc.append(mod.SecAssociation(src_pat=_re.compile('.*'), dst_pat=_re.compile('.*'), tgt_blk_types=[7, 1], templates=sops))
+    else:
+        key = node.add_sym_key(sd.profile_key(sd.PROFILES['mac0-hmac256']))
+        for btype in order:
+            node.add_policy('bib', key.kid, (btype,))
+    return node.send(ORDER_SPEC)
+
+
+def order_wires():
+    ''' Source agents configured with two or three integrity associations in EVERY order of their targets (all
+    permutations of the subsets of {payload, bundle age, hop count}), and one association with two templates over
+    two blocks: one BIB whose operations are in configuration order.  Through the real apply_bib. '''
+    import itertools
+    wires = []
+    for size in (2, 3):
+        for order in itertools.permutations((1, 7, 10), size):
+            name = '-'.join({1: 'payload', 7: 'age', 10: 'hop'}[btype] for btype in order)
+            wires.append(dict(id='agent:mac0-hmac256:order:%s' % name, profile='mac0-hmac256', wire=order_source_wire(order), payload=PAYLOAD,
+                              source='agent', scope={0: 1, -1: 1}, targets=[ORDER_NUM[btype] for btype in order],
+                              sweep=(order == (10, 1, 7)), regen=dict(order=list(order))))
+    # one association, two templates (two keys), two target blocks: operations a1 a2 b1 b2
+    wires.append(dict(id='agent:mac0-hmac256+384:order:two-templates', profile='mac0-hmac256', extra=['mac0-hmac384'],
+                      wire=order_source_wire('two-templates'), payload=PAYLOAD, source='agent-mixed', scope={0: 1, -1: 1},
+                      targets=[1, 2, 1, 2], sweep=False, regen=dict(order='two-templates')))
+    return wires
+
+
+def key_by_kid(kid):
+    for prof in sd.PROFILES.values():
+        if 'key' in prof and prof['key'][0].encode() == bytes(kid):
+            return prof
+    return None
+
+
+def check_pairing(suite, ent, replay):
+    ''' Independent check on the wire: result i of every BIB is the MAC over target i (AAD and MAC_structure
+    recomputed by the independent source, key found by the KID in the message). '''
+    chk = suite.chk
+    items = [it for (it, _r, _o) in sd.split_bundle(ent['wire'])]
+    for blk in items[1:]:
+        if blk[0] != SEC_TYPE:
+            continue
+        asb = sd.asb_decode(blk[4])
+        (addl, _un, scope) = sd.sec_params(asb)
+        if len(asb['targets']) != len(asb['results']):
+            chk.fail(signature='C03 / BIB target list and result list do not pair up', what='%s: %d targets, %d results' % (
+                ent['id'], len(asb['targets']), len(asb['results'])), replay_obj=replay)
+            continue
+        for (ix, tnum) in enumerate(asb['targets']):
+            (code, val) = asb['results'][ix][0]
+            msg = cbor2.loads(val)
+            if code != 17 or not isinstance(msg[1], dict) or 4 not in msg[1]:
+                continue
+            prof = key_by_kid(msg[1][4])
+            if prof is None:
+                continue
+            (_kid, key, alg, _ops) = prof['key']
+            tgt = [b for b in items[1:] if b[1] == tnum][0]
+            aad = sd.py_external_aad(items, blk[:3], asb['source'], scope, addl, tnum)
+            good = sd.py_mac(alg, key, cbor2.dumps(['MAC0', msg[0], aad, tgt[4]])) == msg[3]
+            suite.count('pairing_checked', 'ok' if good else 'MISMATCH')
+            if not good:
+                chk.fail(signature='C03 / BIB result i is not the MAC over target i',
+                         what='%s: BIB %d lists targets %r but result %d does not authenticate block %d' % (
+                             ent['id'], blk[1], asb['targets'], ix, tnum), replay_obj=replay)
+
+
 def make_wires(chk, quick):
     ''' :return: list of dict(id, profile, wire, payload, source ('agent'|'built'), scope, targets). '''
     all_specs = specs(quick)
@@ -207,6 +291,7 @@ def make_wires(chk, quick):
         wires.append(dict(id='built:%d:%s' % (idx, spec_name), profile='mac0-hmac256', wire=wire,
                           payload=all_specs[spec_name]['payload'], source='built', scope=scope, targets=targets))
     wires.extend(multi_bib_wires(all_specs))
+    wires.extend(order_wires())
     return wires
 
 
@@ -478,6 +563,8 @@ def suite_alterations(suite, wires, quick, batch):
     verdict_idx = []
     verdict_meta = []
     for (widx, ent) in enumerate(wires):
+        if ent.get('sweep') is False:
+            continue
         batch.define('orig%d' % widx, sd.coq_octets(ent['wire']))
         cases = alterations(ent, chk.rng, quick, suite.sec_type)
         classes = [suite.classify(ent, case['alt']) for case in cases]
@@ -548,7 +635,7 @@ def suite_baseline(suite, wires):
         vd = good.verify_direct(ent['wire'])
         replay = dict(wire_hex=ent['wire'].hex(), alt_hex=ent['wire'].hex(), profile=ent['profile'], label='unaltered',
                       payload_hex=ent['payload'].hex(), wire_id=ent['id'], extra=ent.get('extra'), accept=ent.get('accept'),
-                      targets=ent.get('targets'))
+                      targets=ent.get('targets'), regen=ent.get('regen'))
         chk.case(ident=('baseline', ent['id']), nontrivial=True)
         items = [it for (it, _r, _o) in sd.split_bundle(ent['wire'])]
         n_bib = sum(1 for blk in items[1:] if blk[0] == SEC_TYPE)
@@ -559,6 +646,8 @@ def suite_baseline(suite, wires):
         if not (out['delivered'] and out['payload'] == ent['payload'] and vd['bib'] == [None] * want):
             chk.fail(signature='C03 / unmodified bundle does not verify at a receiver holding the right key',
                      what='%s: delivered=%r verify_bib=%r reason=%r' % (ent['id'], out['delivered'], vd['bib'], out['reason']), replay_obj=replay)
+        check_pairing(suite, ent, replay)
+        suite.count('bib_target_order', '>'.join(str(t) for t in ent.get('targets', [1])))
         bad = sd.receiver_from_spec(recv_spec(ent, wrong_key=True))
         outb = bad.recv(ent['wire'])
         vdb = bad.verify_direct(ent['wire'])
@@ -711,6 +800,11 @@ def run_one(replay):
         node = sd.receiver_from_spec(recv_spec(replay, wrong_key=replay.get('wrong_key')))
     wire = bytes.fromhex(replay['wire_hex'])
     alt = bytes.fromhex(replay['alt_hex'])
+    if replay.get('regen') and alt == wire:
+        # a source-side case: the bundle is produced again by the source of the tree under test
+        order = replay['regen']['order']
+        wire = alt = order_source_wire(order if isinstance(order, str) else tuple(order))
+        replay['wire_hex'] = replay['alt_hex'] = wire.hex()
     out = node.recv(alt)
     vd = node.verify_direct(alt)
     cls = sd.diff_covered(wire, alt, SEC_TYPE) if alt != wire else ('unaltered', '')
@@ -777,6 +871,8 @@ def replay_main(chk, path):
     elif cls[0] == 'unaltered':
         if not (out['delivered'] and vd['bib'] and all(val is None for val in vd['bib'])):
             chk.fail(signature='C03 / unmodified bundle does not verify at a receiver holding the right key', what='replay', replay_obj=rep)
+        ent['wire'] = bytes.fromhex(rep['wire_hex'])
+        check_pairing(suite, ent, rep)
     else:
         oracle(suite, ent, case, cls, out, rep)
     for (sig, info) in suite.pending.items():
@@ -825,7 +921,9 @@ def main():
               'Model.BpSec.direct_aad, non-trivial = the real code returned octets for a non-empty scope; e2e: for each of %d bundles '
               '(BIB applied by the real agent: MAC0 HMAC-256/384/512, Sign1 ES256/ES384/PS512, one BIB with three targets; or by the '
               'independent source with 8 AAD scopes / targets, and two / three separate BIBs from different security sources over different '
-              'targets; verifiers with accept_after_verify on and off); signer-certificate dimension for Sign1: 10 certificate variants (names the '
+              'targets; verifiers with accept_after_verify on and off; source agents with 2-3 integrity associations in every order of their '
+              'targets (12 permutations of payload / bundle age / hop count, unaltered-verifies + independent target-result pairing check) and '
+              'two templates in one association); signer-certificate dimension for Sign1: 10 certificate variants (names the '
               'source / another node / no bundle-EID SAN / DNS-only SAN / untrusted CA / missing or wrong EKU / no digitalSignature / expired / '
               'not yet valid) x key lookup by x5chain and x5t every single-field alteration (cbor2 decode, one item changed/dropped/added, CRCs re-fixed, plus EID-syntax '
               'variants with and without CRC re-fix) and %s single-bit flips (CRCs re-fixed over the altered octets), each run through the real '
